@@ -722,3 +722,24 @@ pub fn install_hooks() {
     sc::set_syscall_hook(Some(syscall_hook));
     sc::verif::set_atomic_hooks(Some(&crate::vc::ATOMIC_HOOKS));
 }
+
+/// Run `f` with `sim` installed as the active simulator but without simulated threads: system
+/// calls made by `f` reach the simulator's kernel, scheduling points are no-ops.
+#[allow(static_mut_refs)]
+pub fn with_installed<R>(sim: &mut Box<Sim>, f: impl FnOnce() -> R) -> R {
+    let p: *mut Sim = &mut **sim;
+    unsafe {
+        assert!(CUR.is_null(), "nested simulation");
+        CUR = p;
+    }
+    struct Reset;
+    impl Drop for Reset {
+        fn drop(&mut self) {
+            unsafe {
+                CUR = std::ptr::null_mut();
+            }
+        }
+    }
+    let _r = Reset;
+    f()
+}
